@@ -11,7 +11,7 @@ EXPLANATION = ('Structural necessary conditions of C14 in State::process_task_fa
                'exactly the ids that were aborted (one read of non_finished_task_ids taken before the abort); tako cancels what it is told; '
                'non_finished_task_ids selects exactly {Waiting, Running}.')
 NOT_DECIDED = ['counts over all arrival orders (follows from R13.1 + atomic handlers, not separately decided)']
-RELATED = {'C08': ['R08.1', 'R08.4'], 'C10': ['R10.6', 'R10.9', 'R10.7'], 'C12': ['R12.2', 'R12.1~^TasksAborted']}
+RELATED = {'C08': ['R08.1', 'R08.4'], 'C10': ['R10.6', 'R10.9', 'R10.7'], 'C12': ['R12.2', 'R12.1~^TasksAborted'], 'C01': ['R01.6~handle_task_with_signals']}
 ASSUMPTIONS = []
 PTF = HQ + 'state::State::process_task_failed'
 
@@ -115,6 +115,24 @@ def run(ctx):
                             sel |= set(vs)
     ctx.require(found, 'R14.4: JobTaskState match not found in non_finished_task_ids')
     ctx.ob('R14.4', 'non_finished_task_ids|{Waiting,Running}', sel == {'Waiting', 'Running'}, f'non_finished_task_ids yields exactly Waiting and Running tasks (observed {sorted(sel)})', nfb.loc())
+
+    # ---- R14.6 the limit the user gave reaches the server
+    ctx.rule('R14.6', 'client: OptsWithMatches::overwrite merges max_fails from the command line and from the #HQ directives of the script (a limit given only as a directive must reach JobDescription.max_fails)')
+    OVW = [p_ for p_ in prog.bodies if p_.endswith('::overwrite') and 'submit::command' in p_ and prog.bodies[p_].kind in ('fn', 'method')]
+    ctx.require(len(OVW) == 1, f'R14.6: overwrite() of the submit options not found ({OVW})')
+    ob_ = prog.body(OVW[0])
+    SJC = 'hyperqueue::client::commands::submit::command::SubmitJobConfOpts'
+    n6 = 0
+    for o_, b_, bi_, s_ in construct_sites(prog, SJC):
+        if b_.path != ob_.path:
+            continue
+        names = s_['rv'][1][3]
+        if 'max_fails' in names:
+            l_ = op_local(s_['rv'][2][names.index('max_fails')])
+            src = ob_.derived_from(l_) if l_ is not None else set()
+            n6 += 1
+            ctx.ob('R14.6', 'overwrite|max_fails merged from both sources', {1, 2} <= src, 'max_fails of the merged options depends on the command-line options (self) and on the directive options (other)', ob_.loc(bi_, s_))
+    ctx.floor('R14.6', n6, 1, 'SubmitJobConfOpts built in overwrite()')
 
 
 def _r145(ctx):
